@@ -38,6 +38,11 @@ JJ(s, t) == <<"just", <<s, t>>>>
 Bounds == {<<0, Inf>>, <<1, Inf>>, <<0, 1>>, <<1, 2>>, <<2, 2>>}
 Reps(S, bs) == {<<"rep", a, b[1], b[2]>> : a \in {x \in S : ~CanEmpty(x)}, b \in bs}
 
+(* recovery strategies over leaf parsers *)
+Strats == {<<"via", J("a")>>, <<"via", <<"any">>>>, <<"via", <<"to", J("b"), "k">>>>,
+           <<"skipuntil", <<"any">>, J("b")>>, <<"skipuntil", <<"any">>, <<"end">>>>, <<"skipuntil", J("a"), J("b")>>,
+           <<"retry", <<"any">>, J("b")>>, <<"retry", <<"any">>, <<"end">>>>, <<"retry", J("a"), <<"end">>>>}
+
 (* the unary / binary layer of each family *)
 UnLayer(fam, S) ==
   CASE fam = "peg" ->
@@ -52,6 +57,24 @@ UnLayer(fam, S) ==
          Un(S, {"ornot", "rewind"}) \cup UnP(S, "filter", {"nfa"}) \cup UnP(S, "trymap", {"nfa", "T"})
          \cup UnP(S, "trymapw", {"nfa"})
          \cup {<<"collect", r, "vec">> : r \in Reps(S, {<<0, Inf>>, <<1, Inf>>})}
+    [] fam = "rcv" ->
+         Un(S, {"ornot"}) \cup {<<"collect", r, "vec">> : r \in Reps(S, {<<0, Inf>>, <<1, 2>>})}
+         \cup {<<"validate", a, "1", "nfa">> : a \in S}
+         \cup {<<"recover", a, sg>> : a \in S, sg \in Strats}
+    [] fam = "lbl" ->
+         Un(S, {"ornot"}) \cup {<<"label", a, "L", c>> : a \in S, c \in BOOLEAN}
+         \cup UnP(S, "maperr", {"tag", "id"})
+         \cup {<<"validate", a, "1", "nfa">> : a \in S}
+         \cup {<<"collect", r, "vec">> : r \in Reps(S, {<<0, Inf>>})}
+    [] fam = "memo" ->
+         Un(S, {"ornot", "memo", "rewind"}) \cup UnP(S, "trymap", {"nfa"}) \cup UnP(S, "map", {"f"})
+         \cup {<<"collect", r, "vec">> : r \in Reps(S, {<<0, Inf>>, <<1, Inf>>})}
+    [] fam = "ctx" ->
+         Un(S, {"ornot", "mw"}) \cup {<<"withctx", c, a>> : c \in {VT("a"), VS(<<"a", "b">>), VI(2)}, a \in S}
+         \cup {<<"mapctx", "f", a>> : a \in S} \cup UnP(S, "map", {"num"})
+         \cup {<<"collect", r, "vec">> : r \in Reps(S, {<<0, Inf>>})}
+         \cup {<<"collect", <<"cfgrep", <<"rep", a, 0, Inf>>>>, "vec">> : a \in {x \in S : ~CanEmpty(x)}}
+         \cup {<<"run", <<"cfgrep", <<"rep", a, 0, Inf>>>>>> : a \in {x \in S : ~CanEmpty(x)}}
     [] fam = "rep" ->
          {<<"collect", r, k>> : r \in Reps(S, Bounds), k \in {"vec"}}
          \cup {<<"run", r>> : r \in Reps(S, Bounds)}
@@ -62,6 +85,10 @@ BinLayer(fam, S1, S2) ==
                       \cup {<<"choice", <<a, b>>>> : a \in S1, b \in S2} \cup {<<"choicev", <<a, b>>>> : a \in S1, b \in S2}
     [] fam = "emit" -> Bin(S1, S2, {"then", "or", "andis"})
     [] fam = "err" -> Bin(S1, S2, {"then", "or", "andis"}) \cup {<<"choicev", <<a, b>>>> : a \in S1, b \in S2}
+    [] fam = "rcv" -> Bin(S1, S2, {"then", "or"})
+    [] fam = "lbl" -> Bin(S1, S2, {"then", "or"}) \cup {<<"choicev", <<a, b>>>> : a \in S1, b \in S2}
+    [] fam = "memo" -> Bin(S1, S2, {"then", "or", "andis"})
+    [] fam = "ctx" -> Bin(S1, S2, {"then", "or", "thenctx", "ignctx"})
     [] fam = "rep" -> Bin(S1, S2, {"then", "or"})
                       \cup {<<"collect", <<"sep", a, b, lh[1], lh[2], l, t>>, "vec">> :
                               a \in {x \in S1 : ~CanEmpty(x)}, b \in S2, lh \in {<<0, Inf>>, <<1, 2>>, <<2, Inf>>},
@@ -72,13 +99,43 @@ LeavesOf(fam) ==
     [] fam = "emit" -> {J("a"), J("b"), <<"any">>, <<"cust", 1, FALSE>>}
     [] fam = "err" -> {J("a"), J("b"), JJ("a", "b"), <<"any">>, <<"end">>, <<"cust", 1, FALSE>>}
     [] fam = "rep" -> {J("a"), J("b"), J(","), JJ("a", "b"), <<"any">>}
+    [] fam = "rcv" -> {J("a"), J("b"), JJ("a", "b"), <<"any">>}
+    [] fam = "lbl" -> {J("a"), J("b"), JJ("a", "b"), <<"any">>, <<"end">>, <<"cust", 1, FALSE>>}
+    [] fam = "memo" -> {J("a"), J("b"), JJ("a", "b"), <<"any">>, <<"cust", 1, FALSE>>}
+    [] fam = "ctx" -> {J("a"), J("b"), <<"any">>, <<"cfgjust">>, <<"mw", <<"any">>>>}
 
 RECURSIVE GSz(_, _)
 GSz(fam, n) ==
   IF n = 1 THEN LeavesOf(fam)
   ELSE UnLayer(fam, GSz(fam, n - 1))
        \cup UNION {BinLayer(fam, GSz(fam, i), GSz(fam, n - 1 - i)) : i \in 1..(n - 2)}
-Grammars == {g \in UNION {GSz(Fam, n) : n \in 1..MaxSize} : WF(g)}
+(* template families: hand-written shapes that a size-bounded enumeration would not reach *)
+LP == "("
+RP == ")"
+Ref1 == <<"ref", 1>>
+RecTemplates ==
+  { <<"rec", <<"or", <<"then", J("a"), Ref1>>, J("b")>>>>,                                   \* a* b, right recursion
+    <<"rec", <<"delim", <<"ornot", Ref1>>, J(LP), J(RP)>>>>,                                 \* nested parentheses
+    <<"rec", <<"then", J("a"), <<"ornot", Ref1>>>>>>,
+    <<"rec", <<"or", <<"then", J("a"), <<"rec", <<"or", <<"then", J("b"), <<"ref", 2>>>>, J("b")>>>>>>, J("a")>>>>,  \* mutual
+    <<"rec", <<"collect", <<"rep", <<"or", <<"delim", Ref1, J(LP), J(RP)>>, J("a")>>, 0, Inf>>, "vec">>>>,       \* token trees
+    <<"rec", <<"or", <<"map", <<"then", J(LP), <<"theni", Ref1, J(RP)>>>>, "f">>, J("a")>>>>,
+    <<"rec", <<"or", <<"then", J("a"), <<"then", Ref1, Ref1>>>>, J("b")>>>>,                    \* two self references
+    <<"then", <<"rec", <<"or", <<"then", J("a"), Ref1>>, J("b")>>>>, <<"rec", <<"or", <<"then", J(LP), Ref1>>, J(RP)>>>>>>,
+    <<"rec", <<"or", <<"then", J("a"), <<"memo", Ref1>>>>, J("b")>>>>,                          \* memoized recursive step
+    <<"rec", <<"memo", <<"delim", <<"ornot", Ref1>>, J(LP), J(RP)>>>>>>,
+    <<"rec", <<"or", <<"then", J("a"), <<"boxed", Ref1>>>>, <<"empty">>>>>> }
+(* left recursion cut by memoization: expr = expr op atom | atom *)
+LRecTemplates ==
+  { <<"rec", <<"memo", <<"or", <<"then", Ref1, <<"then", J("+"), J("a")>>>>, J("a")>>>>>>,
+    <<"rec", <<"or", <<"then", <<"memo", Ref1>>, <<"then", J("+"), J("a")>>>>, J("a")>>>>,
+    <<"rec", <<"memo", <<"or", <<"then", Ref1, J("a")>>, J("a")>>>>>>,
+    <<"rec", <<"memo", <<"or", <<"map", <<"then", Ref1, <<"then", J("+"), Ref1>>>>, "f">>, J("a")>>>>>> }
+Templates(fam) == CASE fam = "rec" -> RecTemplates [] fam = "lrec" -> LRecTemplates
+TemplateFams == {"rec", "lrec"}
+
+Grammars == IF Fam \in TemplateFams THEN Templates(Fam)
+            ELSE {g \in UNION {GSz(Fam, n) : n \in 1..MaxSize} : WF(g)}
 
 CaseSet == {[g |-> g, inp |-> x, offs |-> Offs(k, x), kind |-> k, ety |-> e, mode |-> m] :
               g \in Grammars, x \in Inputs, k \in Kinds, e \in Etys, m \in Modes}
@@ -101,7 +158,11 @@ EnvBodies(env) == [i \in DOMAIN env |-> env[i].body]
 ErrsOf(s) == [i \in DOMAIN s |-> s[i].err]
 
 (* emissions of the reference are full (Rich-shaped) errors; project them *)
-NormSeq(s) == [i \in DOMAIN s |-> Norm(Ety, s[i])]
+NormSeq(s) == [i \in DOMAIN s |-> IF IsMark(s[i]) THEN s[i] ELSE Norm(Ety, s[i])]
+(* emissions agree; where the reference says "one recovered error here" any error is accepted *)
+(* (its content is the machine's pending error at the failure, checked by conformance)        *)
+EmAgree(es, dem) == /\ Len(es) = Len(dem)
+                    /\ \A i \in DOMAIN es : IsMark(dem[i]) \/ [es[i] EXCEPT !.ctxs = <<>>] = Norm(Ety, dem[i])
 
 (* C01/C02 (+C05 on sub-parsers): every sub-parser return refines the     *)
 (* reference: same acceptance, same end position, same value, and the     *)
@@ -114,7 +175,7 @@ RetRefines ==
        /\ ret.ok => /\ cur = d.end
                     /\ fr.mode = "E" => ret.val = d.val
                     /\ Len(sec) >= fr.cp.nsec
-                    /\ ErrsOf(SubSeq(sec, fr.cp.nsec + 1, Len(sec))) = NormSeq(d.em)
+                    /\ EmAgree(ErrsOf(SubSeq(sec, fr.cp.nsec + 1, Len(sec))), d.em)
 
 (* C18: whenever anything can observe it, the inspector has seen exactly  *)
 (* the tokens before the cursor                                           *)
@@ -128,7 +189,7 @@ ResultContract ==
     LET d == DenTop IN
     /\ result.ok = d.ok
     /\ result.ok => /\ cur = NTok
-                    /\ result.errs = NormSeq(d.em)
+                    /\ EmAgree(result.errs, d.em)
                     /\ TopMode = "E" => result.out = d.val
     /\ ~result.ok => Len(result.errs) >= 1
 
@@ -138,7 +199,8 @@ TotalLen == Case.offs[NTok + 1]
 OffTok(o) == IF \E i \in 0..(NTok - 1) : Case.offs[i + 1] = o
              THEN Toks[(CHOOSE i \in 0..(NTok - 1) : Case.offs[i + 1] = o) + 1] ELSE ""
 FurthestFailure ==
-  (st.done /\ ~st.panicked /\ ~result.ok /\ KfClean /\ ~HasOp(G, {"not"}) /\ Ety # "empty") =>
+  (st.done /\ ~st.panicked /\ ~result.ok /\ KfClean /\ Ety # "empty"
+   /\ ~HasOp(G, {"not", "recover", "label", "maperr", "nested"})) =>
     LET d == DenTop
         e == result.errs[Len(result.errs)]
     IN /\ 0 <= e.s /\ e.s <= e.e /\ e.e <= TotalLen
